@@ -884,6 +884,13 @@ class Model:
         values: Dict[str, Any] = {}
         present: List[str] = []
         self._object_fields(cd, d, err, values, present, top=True)
+        # validation.md: a validator runs when the fields it reads are all valid (on the partially built object when other
+        # fields are in error) and is skipped when all of them are left to their defaults; its errors are merged
+        for v in cd.get("validators") or []:
+            got = values.get(v["field"])
+            if isinstance(got, list) and len(got) == 2 and ((got[0] in ("int", "float") and v["bad"] == 13 and got[1] == 13)
+                                                             or (got[0] == "str" and v["bad"] == "abc" and got[1] == "abc")):
+                err.merge(Err([v["name"]]))
         if err:
             return None, err
         return self._construct(cd, values, d), None
